@@ -36,6 +36,10 @@ def template(k, vals=None):
             if not p:
                 sp = 'Uniform'
         use[i % 2].append(f'let t{i} = textureDimensions(v{i});' if sp == 'Handle' else f'let t{i} = v{i}.x;')
+    if RENDER.get('entries', 'both') == 'none':
+        # a module without any entry point (a library of declarations): the numbering contract does not depend on who uses a slot
+        out.append('fn helper() -> f32 { ' + ' '.join(use[0] + use[1]) + ' return 0.0; }')
+        return '\n'.join(out) + '\n'
     out.append('@vertex fn vmain() -> @builtin(position) vec4<f32> { ' + ' '.join(use[0]) + ' return vec4<f32>(0.0); }')
     out.append('@fragment fn main() { ' + ' '.join(use[1]) + ' }')
     return '\n'.join(out) + '\n'
@@ -230,39 +234,42 @@ def run(ctx):
                 raise Inconclusive(f'translator disagrees with the implementation on pairs {vals}: real {got}, interpreter {mine}')
             ctx.replayed_ok += 1
             ctx.sample({'pairs(has_binding, group, binding)': vals, 'verdict': mine})
-    # end to end: Err is propagated unchanged, Ok produces one BindGroupN per group in order
-    k = 2
-    src, module, holes = build(ctx, k)
-    env = env_passthrough(module, src)
-    # validation off / on (symbolic): the validator stub accepts (real naga only reports a collision when one entry point uses both
-    # variables; the template's variables are unused), so the contract must hold whichever way the crate gets its group data
-    validate_on = z3.Bool('validate_is_some')
-    vo = Agg('Option', {'Some': [Agg('ValidationOptions', [Agg('Capabilities', [Agg('InternalBitFlags', [z3.BitVec('capabilities', 32)])])])], 'None': []},
-             disc=z3.If(validate_on, z3.BitVecVal(1, 64), z3.BitVecVal(0, 64)))
-    res = ctx.explore('create_shader_module_inner/k=2', lambda it: it.call('create_shader_module_inner', [src, none(), write_options(ctx.S.conv, validate=vo)]),
-                      assume=ctx.space_assume, env=env, anchors=ANCHORS + ['create_shader_module_inner'])
-    dup, any_dup, first_b, dense = expected(holes)
-    for pc, kind, out, _ in res:
-        if kind == 'panic':
-            m = ctx.witness(pc)
-            vals = [(model_value(m, p), model_value(m, g), model_value(m, b)) for p, g, b in holes]; set_spaces(m)
-            r = ctx.S.oracle.gen(template(k, vals), {})
-            ctx.report('C11/panic', f'generator panics ({out}) for pairs {vals}', {'wgsl': template(k, vals)}, 'panic' in r, r)
-            continue
-        if out.disc == 1:
-            e = out.fields[0]
-            bad = {'DuplicateBinding': z3.Or(z3.Not(any_dup), e.fields[0] != first_b) if e.variant == 'DuplicateBinding' else None,
-                   'NonConsecutiveBindGroups': z3.Or(any_dup, dense)}.get(e.variant, z3.BoolVal(True))
-        else:
-            bad = z3.Or(any_dup, z3.Not(dense))
-        m = ctx.check(pc, bad)
-        if m is not None:
-            vals = [(model_value(m, p), model_value(m, g), model_value(m, b)) for p, g, b in holes]; set_spaces(m)
-            von = model_value(m, validate_on)
-            r = ctx.S.oracle.gen(template(k, vals), {'validate': True} if von else {})
-            got = 'ok' if 'ok' in r else r.get('err', r)
-            ctx.report('C11/end-to-end', f'pairs {vals} (validate={von}): create_shader_module returned {str(got)[:80]}, contract says {verdict(vals)}',
-                       {'wgsl': template(k, vals), 'options': {'validate': von}}, not same_verdict(got, verdict(vals)))
+    for entries in ('both', 'none'):
+        RENDER['entries'] = entries
+        # end to end: Err is propagated unchanged, Ok produces one BindGroupN per group in order
+        k = 2
+        src, module, holes = build(ctx, k)
+        env = env_passthrough(module, src)
+        # validation off / on (symbolic): the validator stub accepts (real naga only reports a collision when one entry point uses both
+        # variables; the template's variables are unused), so the contract must hold whichever way the crate gets its group data
+        validate_on = z3.Bool(f'validate_is_some_{entries}')
+        vo = Agg('Option', {'Some': [Agg('ValidationOptions', [Agg('Capabilities', [Agg('InternalBitFlags', [z3.BitVec('capabilities', 32)])])])], 'None': []},
+                 disc=z3.If(validate_on, z3.BitVecVal(1, 64), z3.BitVecVal(0, 64)))
+        res = ctx.explore(f'create_shader_module_inner/k=2/entry-points={entries}', lambda it: it.call('create_shader_module_inner', [src, none(), write_options(ctx.S.conv, validate=vo)]),
+                          assume=ctx.space_assume, env=env, anchors=ANCHORS + ['create_shader_module_inner'])
+        dup, any_dup, first_b, dense = expected(holes)
+        for pc, kind, out, _ in res:
+            if kind == 'panic':
+                m = ctx.witness(pc)
+                vals = [(model_value(m, p), model_value(m, g), model_value(m, b)) for p, g, b in holes]; set_spaces(m)
+                r = ctx.S.oracle.gen(template(k, vals), {})
+                ctx.report('C11/panic', f'generator panics ({out}) for pairs {vals}', {'wgsl': template(k, vals)}, 'panic' in r, r)
+                continue
+            if out.disc == 1:
+                e = out.fields[0]
+                bad = {'DuplicateBinding': z3.Or(z3.Not(any_dup), e.fields[0] != first_b) if e.variant == 'DuplicateBinding' else None,
+                       'NonConsecutiveBindGroups': z3.Or(any_dup, dense)}.get(e.variant, z3.BoolVal(True))
+            else:
+                bad = z3.Or(any_dup, z3.Not(dense))
+            m = ctx.check(pc, bad)
+            if m is not None:
+                vals = [(model_value(m, p), model_value(m, g), model_value(m, b)) for p, g, b in holes]; set_spaces(m)
+                von = model_value(m, validate_on)
+                r = ctx.S.oracle.gen(template(k, vals), {'validate': True} if von else {})
+                got = 'ok' if 'ok' in r else r.get('err', r)
+                ctx.report('C11/end-to-end', f'pairs {vals} (validate={von}, entry points: {entries}): create_shader_module returned {str(got)[:80]}, contract says {verdict(vals)}',
+                           {'wgsl': template(k, vals), 'options': {'validate': von}}, not same_verdict(got, verdict(vals)))
+    RENDER['entries'] = 'both'
     ctx.differential(template(3, [(True, 1, 7), (True, 0, 4000000000), (False, 0, 0)]), {})
     ctx.differential(template(3, [(True, 1, 7), (True, 1, 7), (True, 0, 0)]), {})
     ctx.differential(template(2, [(True, 2, 0), (True, 0, 0)]), {})
@@ -278,7 +285,9 @@ def native(ctx):
         vals = [(ctx.rng.random() < 0.85, ctx.rng.choice(pool_g[:3] if ctx.rng.random() < 0.8 else pool_g), ctx.rng.choice(pool_b[:4] if ctx.rng.random() < 0.8 else pool_b))
                 for _ in range(k)]
         RENDER['spaces'] = [ctx.rng.choice(list(SPACE_DECL)) for _ in range(k)]
+        RENDER['entries'] = 'none' if i % 4 == 3 else 'both'
         src = template(k, vals)
+        RENDER['entries'] = 'both'
         r = ctx.S.oracle.gen(src, {})
         got = 'ok' if 'ok' in r else r.get('err', r)
         exp = verdict(vals)
